@@ -140,7 +140,7 @@ def check(run):
             specs.append(build(r0, "S%d" % k, n, mask, fieldless=(k % 3 != 2)))
             k += 1
     r = gen.rng_for(run.seed, "c08")
-    for i in range(5000 if thorough else 900):
+    for i in range(8000 if thorough else 2000):
         n = r.choice([0, 1, 2, 3, 4, 6, 9, 14]) if i not in (7, 8) else 60
         mask = [r.random() < (0.25 if i % 2 else 0.0) for _ in range(n)]
         fl = r.random() < 0.6
